@@ -1,6 +1,6 @@
 SPECIFICATION MCSpec
 CONSTANTS Kinds = {"k1", "k2", "kt"}  Threaded = {"kt"}  Objs = {"o1", "o2"}  Bug = "none"
- MaxCalls = 4  MaxPerCall = 2  MaxIds = 4
+ MaxCalls = 3  MaxPerCall = 2  MaxIds = 4
 INVARIANTS NoBadFree FailureReported FailedInitClean EndClean HandleStillUsable CallerUnchanged
  OneShotBalanced UpdateKeepsCaller AllReleased KindMatch PointersLive
 CHECK_DEADLOCK FALSE
